@@ -42,6 +42,11 @@ theorem every_further_cycle (hI : C09.IntRoundTrip) (hV : C09.FValRoundTrip) (d 
     | succ n ih => simp only [cycles, hc, ih]
   exact ⟨h1, by rw [h1]; exact hw⟩
 
+/-- The same with the integer hypothesis discharged (`C09.intRoundTrip`). -/
+theorem every_further_cycle_main (hV : C09.FValRoundTrip) (d : LDef) (hwf : C09.DefWF d) (g : XmlNode)
+    (hw : toXml d = .ok g) (n : Nat) : cycles n d = .ok d ∧ (cycles n d).bind toXml = .ok g :=
+  every_further_cycle C09.intRoundTrip hV d hwf g hw n
+
 /-- Non-vacuity: the example definition of `C09` is in the regime and writable. -/
 example : ∃ g, toXml C09.exDef = .ok g := ⟨_, rfl⟩
 
